@@ -135,11 +135,32 @@ theorem inv_arrayAssign {st : St} (h : Inv st) (lhs rhs : Nat) : Inv (st.arrayAs
       · exact ⟨remove_not_bottom h.1 _, Env.forget_sorted _ _ h.2⟩
       · exact h
 
-theorem inv_join {a b : St} (ha : Inv a) (hb : Inv b) : Inv (St.join a b) :=
-  ⟨join_not_bottom ha.1 hb.1, Env.upperWith_sorted _ ha.2 hb.2⟩
+theorem inv_join {a b : St} (ha : Inv a) (hb : Inv b) : Inv (St.join a b) := by
+  unfold St.join
+  split
+  · exact hb
+  · split
+    · exact ha
+    · exact ⟨join_not_bottom ha.1 hb.1, Env.upperWith_sorted _ ha.2 hb.2⟩
 
-theorem inv_widen {a b : St} (ha : Inv a) (hb : Inv b) : Inv (St.widen a b) :=
-  ⟨join_not_bottom ha.1 hb.1, Env.upperWith_sorted _ ha.2 hb.2⟩
+theorem inv_widen {a b : St} (ha : Inv a) (hb : Inv b) : Inv (St.widen a b) := by
+  unfold St.widen
+  split
+  · exact hb
+  · split
+    · exact ha
+    · exact ⟨join_not_bottom ha.1 hb.1, Env.upperWith_sorted _ ha.2 hb.2⟩
+
+/-- join / widening with an operand whose base is bottom: the other operand -/
+theorem join_bottom_l {a b : St} (h : a.isBottom = true) : St.join a b = b := by simp [St.join, h]
+theorem join_bottom_r {a b : St} (h : a.isBottom = false) (h' : b.isBottom = true) : St.join a b = a := by
+  simp [St.join, h, h']
+theorem widen_bottom_l {a b : St} (h : a.isBottom = true) : St.widen a b = b := by simp [St.widen, h]
+theorem widen_bottom_r {a b : St} (h : a.isBottom = false) (h' : b.isBottom = true) : St.widen a b = a := by
+  simp [St.widen, h, h']
+
+theorem absS_congr {st st' : St} (e : st = st') (h : st.base.Sorted) (h' : st'.base.Sorted) :
+    absS st h = absS st' h' := by subst e; rfl
 
 /-! ### commutation with the generic model -/
 
@@ -191,14 +212,20 @@ theorem abs_arrayStore (esz : Nat → Nat) {st : St} (h : Inv st) (a : Nat) (val
     · have ht' : ¬ absSz st.sizes a = some (esz a) := fun e => ht ((equalSize_iff h.1 a _).2 e)
       simp only [absS, St.arrayStore, Smash.aStore, Bool.false_eq_true, if_false, ht, ht']
 
-theorem abs_join {a b : St} (ha : Inv a) (hb : Inv b) :
+theorem abs_join {a b : St} (ha : Inv a) (hb : Inv b) (na : a.isBottom = false) (nb : b.isBottom = false) :
     absS (St.join a b) (inv_join ha hb).2 = Smash.sJoin (absS a ha.2) (absS b hb.2) := by
-  simp only [absS, St.join, Smash.sJoin, absSz_join ha.1 hb.1]
+  have e : St.join a b = ⟨SzEnv.join a.sizes b.sizes, IDom.Env.join a.base b.base⟩ := by
+    simp [St.join, na, nb]
+  rw [absS_congr e _ (Env.upperWith_sorted _ ha.2 hb.2)]
+  simp only [absS, Smash.sJoin, absSz_join ha.1 hb.1]
   rfl
 
-theorem abs_widen {a b : St} (ha : Inv a) (hb : Inv b) :
+theorem abs_widen {a b : St} (ha : Inv a) (hb : Inv b) (na : a.isBottom = false) (nb : b.isBottom = false) :
     absS (St.widen a b) (inv_widen ha hb).2 = Smash.sWiden (absS a ha.2) (absS b hb.2) := by
-  simp only [absS, St.widen, Smash.sWiden, absSz_join ha.1 hb.1]
+  have e : St.widen a b = ⟨SzEnv.join a.sizes b.sizes, IDom.Env.widen a.base b.base⟩ := by
+    simp [St.widen, na, nb]
+  rw [absS_congr e _ (Env.upperWith_sorted _ ha.2 hb.2)]
+  simp only [absS, Smash.sWiden, absSz_join ha.1 hb.1]
   rfl
 
 /-- `array_assign` when the size of the right-hand side, or at least the size of the left-hand
